@@ -745,7 +745,7 @@ def _cl(s):
 
 def generated_obligations(ck):
     head = ('From Pybtex Require Import Base.Prelude Base.PyChar Base.PyStr Model.RtTypes Model.Backends '
-            'Proofs.Backends Proofs.BackendsMd Proofs.BackendsHtml Proofs.BackendsLatex.\nLocal Open Scope N_scope.\n')
+            'Proofs.Backends Proofs.BackendsMd Proofs.BackendsHtml Proofs.BackendsLatex Proofs.BackendsHtmlWf.\nLocal Open Scope N_scope.\n')
     obs = []
     def run(name, what, body):
         try:
@@ -770,7 +770,7 @@ def generated_obligations(ck):
         t = '[' + '; '.join('(%s, %s)' % (_cl(S(k)), ('Some ' + _cl(S(v[0]))) if v else 'None') for k, v in tags) + ']'
         return 'Definition TAB : tables := mkTables %s %s markdown_escapable.\n' % (s, t)
     def html():
-        return tabs(0) + 'Lemma html_symbols_are_entities_or_text : html_symbols_ok TAB = true.\nProof. vm_compute. reflexivity. Qed.\n'
+        return tabs(0) + 'Lemma html_symbols_are_entities_or_text : html_symbols_ok TAB = true /\\ html_symbols_wf TAB = true.\nProof. vm_compute. split; reflexivity. Qed.\n'
     def latex():
         return tabs(1) + 'Lemma latex_tables_shape : latex_tables_ok TAB = true.\nProof. vm_compute. reflexivity. Qed.\n'
     def enc():
